@@ -103,6 +103,23 @@ def run(p):
             d = math.dist(back, (x, y, z))
             p.check(d <= 2e-5, 'xyz2llh-roundtrip:near-axis', 'roundtrip_near_axis', [x, y, z, ell.semimaj, ell.inversef], d, '<= 2e-5 m',
                     f'xyz2llh({x!r}, {y!r}, {z!r}, Ellipsoid({ell.semimaj!r}, {ell.inversef!r}))')
+    # Cartesian points with a component that is EXACTLY zero (0.0, -0.0 or the int 0): on the Greenwich / 90-degree / equatorial planes
+    for _ in range(p.n(150, 3000)):
+        ell = gens.ellipsoid(rng)
+        r_ = rng.uniform(6.0e6, 7.0e6)
+        th = rng.uniform(-1.4, 1.4)
+        zero = rng.choice([0.0, -0.0, 0])
+        sgn = rng.choice([-1, 1])
+        x, y, z = rng.choice([(zero, sgn * r_ * math.cos(th), r_ * math.sin(th)), (sgn * r_ * math.cos(th), zero, r_ * math.sin(th)),
+                              (sgn * r_ * math.cos(th) * 0.6, sgn * r_ * math.cos(th) * 0.8, zero)])
+        inp = [repr(x), repr(y), repr(z), ell.semimaj, ell.inversef]
+        p.case('roundtrip_exact_zero_component', inp)
+        ok, q = p.guarded('xyz2llh-raises', 'roundtrip_exact_zero_component', inp, lambda: C.xyz2llh(x, y, z, ell))
+        if ok:
+            back = C.llh2xyz(*q, ell)
+            d = math.dist(back, (float(x), float(y), float(z)))
+            p.check(d <= 2e-5 and -180 <= q[1] <= 180, 'xyz2llh-roundtrip', 'roundtrip_exact_zero_component', inp, [list(q), d], '<= 2e-5 m',
+                    f'xyz2llh({x!r}, {y!r}, {z!r}, Ellipsoid({ell.semimaj!r}, {ell.inversef!r}))')
     # angle-object arguments give the decimal-degree result
     for _ in range(p.n(300, 5000)):
         lat, lon = rng.uniform(-90, 90), rng.uniform(-180, 180)
@@ -166,6 +183,30 @@ def run(p):
                 p.case('coord_classes_default_ellipsoid', inp)
                 p.check(math.dist(got, exp3) <= 1e-6, 'coord-classes-cart:default-ellipsoid', 'coord_classes_default_ellipsoid', inp,
                         list(got), exp3, call.replace('.cart(same ellipsoid)', '.cart()') + '  # default ellipsoid = GRS80')
+        # an object whose numbers are edited between two conversions: the second conversion is of the numbers it holds NOW
+        if rng.random() < 0.3:
+            g3 = CO.CoordGeo(lat, lon, h)
+            try:
+                g3.cart(ell)
+                lat3, lon3, h3 = lat, lon, h
+                which = rng.choice(['ell_ht', 'lat', 'lon'])
+                if which == 'ell_ht':
+                    h3 = h + rng.choice([1000.0, -250.0, 0.5])
+                    g3.ell_ht = h3
+                elif which == 'lat':
+                    lat3 = max(-90.0, min(90.0, lat + rng.choice([1.0, -0.25])))
+                    g3.lat = lat3
+                else:
+                    lon3 = max(-180.0, min(180.0, lon + rng.choice([1.0, -0.25])))
+                    g3.lon = lon3
+                c3 = g3.cart(ell)
+                exp3 = [float(v) for v in closed_form(lat3, lon3, h3, ell.semimaj, ell.inversef)]
+                p.case('coord_classes_edited', inp + [which])
+                p.check(math.dist((c3.xaxis, c3.yaxis, c3.zaxis), exp3) <= 1e-6, 'coord-classes-cart:edited-object', 'coord_classes_edited',
+                        inp + [which], [c3.xaxis, c3.yaxis, c3.zaxis], exp3,
+                        f'g = CoordGeo({lat!r}, {lon!r}, {h!r}); g.cart(ell); g.{which} = ...; g.cart(ell)')
+            except Exception as ex:  # noqa
+                p.violation('coord-classes-raise', 'coord_classes_edited', inp, f'{type(ex).__name__}: {ex}', 'a value', 'edited CoordGeo .cart()')
         c1 = CO.CoordGeo(lat, lon, h).cart(ell)
         d1 = math.dist((c1.xaxis, c1.yaxis, c1.zaxis), (x, y, z))
         p.check(d1 <= 1e-6, 'coord-classes-cart', 'coord_classes', inp, d1, '<= 1e-6 m',
